@@ -11,11 +11,15 @@ mod c02;
 mod c03;
 pub mod c04;
 mod c05;
+mod c11;
 pub mod c06;
+mod c07;
+mod derive_checks;
 mod c12;
 mod c14;
 mod c15;
 mod c16;
+mod c19;
 
 #[global_allocator]
 static GLOBAL: mcx::alloc::Counting = mcx::alloc::Counting;
@@ -111,10 +115,13 @@ fn main() {
         "C04" => c04::run(&r),
         "C05" => c05::run(&r),
         "C06" => c06::run(&r),
+        "C07" => c07::run(&r),
+        "C11" => c11::run(&r),
         "C12" => c12::run(&r),
         "C14" => c14::run(&r),
         "C15" => c15::run(&r),
         "C16" => c16::run(&r),
+        "C19" => c19::run(&r),
         _ => {
             eprintln!("unknown property {}", id);
             std::process::exit(2)
